@@ -50,6 +50,18 @@ def fm(kind, s):
     return _C[kind].fullmatch(s) is not None
 
 
+def _has_nonfinite(v, depth=0):
+    if isinstance(v, float):
+        return v != v or v in (float("inf"), float("-inf"))
+    if depth > 50:
+        return False
+    if isinstance(v, list):
+        return any(_has_nonfinite(x, depth + 1) for x in v)
+    if isinstance(v, dict):
+        return any(_has_nonfinite(x, depth + 1) for x in v.values())
+    return False
+
+
 def _no_json_constant(name):
     raise ValueError("%s is not JSON" % name)
 
@@ -72,6 +84,8 @@ def tag_value_verdict(dt, v):
             return (INVALID, "json")
         if not isinstance(val, (list, dict)):
             return (UNSPEC, "json scalar")
+        if _has_nonfinite(val):
+            return (UNSPEC, "json number outside the range of a double")
         return (VALID, None)
     if dt == "f":
         try:
